@@ -1184,7 +1184,102 @@ func GenDoc(r *rng.R, gotext bool) *Doc {
 	if r.P(1, 10) {
 		g.splitTableScenario(d)
 	}
+	if r.P(1, 12) {
+		g.raggedTableScenario(d)
+	}
+	if r.P(1, 12) {
+		g.counterGraphScenario(d)
+	}
 	return d
+}
+
+// raggedTableScenario: table-layout:fixed with a definite width, whose grid width comes from the
+// first row or from <col> elements, and LATER rows that are wider: more cells, colspans crossing
+// the edge of the grid followed by further cells, cells entirely beyond the grid.
+func (g *gen) raggedTableScenario(d *Doc) {
+	r := g.r
+	t := &Node{Tag: "table", Style: []Decl{{Name: "table-layout", Value: pick(r, []string{"fixed", "fixed", "fixed", "auto"})}, {Name: "width", Value: pick(r, []string{"200px", "100%", "300px", "50px", "auto"})}}}
+	if r.P(1, 3) {
+		t.Style = append(t.Style, Decl{Name: "border-collapse", Value: "collapse"})
+	}
+	if r.P(1, 3) {
+		cg := &Node{Tag: "colgroup"}
+		for i := 0; i < r.Range(1, 2); i++ {
+			cg.Kids = append(cg.Kids, &Node{Tag: "col", Style: []Decl{{Name: "width", Value: pick(r, []string{"50px", "30%", "auto"})}}})
+		}
+		t.Kids = append(t.Kids, cg)
+	}
+	cell := func(span string) *Node {
+		c := &Node{Tag: pick(r, []string{"td", "td", "th"}), Kids: []*Node{{Text: pick(r, []string{"a", "b", "c", "ab cd"})}}}
+		if span != "" {
+			c.Attrs = append(c.Attrs, Attr{K: "colspan", V: span})
+		}
+		if r.P(1, 8) {
+			c.Attrs = append(c.Attrs, Attr{K: "rowspan", V: pick(r, []string{"2", "3"})})
+		}
+		return c
+	}
+	first := &Node{Tag: "tr"}
+	for i := 0; i < r.Range(1, 2); i++ {
+		first.Kids = append(first.Kids, cell(""))
+	}
+	t.Kids = append(t.Kids, first)
+	for k := 0; k < r.Range(1, 3); k++ {
+		tr := &Node{Tag: "tr"}
+		switch r.Intn(4) {
+		case 0: // a colspan crossing the edge, then another cell
+			tr.Kids = append(tr.Kids, cell(pick(r, []string{"3", "2", "5"})), cell(""))
+		case 1: // more cells than the first row
+			for i := 0; i < r.Range(3, 5); i++ {
+				tr.Kids = append(tr.Kids, cell(""))
+			}
+		case 2:
+			tr.Kids = append(tr.Kids, cell(""), cell(pick(r, []string{"2", "4"})), cell(""), cell(pick(r, []string{"", "2"})))
+		default:
+			tr.Kids = append(tr.Kids, cell(""))
+		}
+		t.Kids = append(t.Kids, tr)
+	}
+	d.Body.Kids = append(d.Body.Kids, t)
+}
+
+// counterGraphScenario: @counter-style rules whose `system: extends` references form chains that
+// end in a self-loop or a 2-/3-cycle (the used style itself need not be on the cycle), a missing
+// style or a real style; used through list-style-type and counter() / counters().
+func (g *gen) counterGraphScenario(d *Doc) {
+	r := g.r
+	names := []string{"ka", "kb", "kc"}
+	n := r.Range(1, 3)
+	for i := 0; i < n; i++ {
+		var target string
+		switch r.Intn(5) {
+		case 0:
+			target = names[i] // self loop
+		case 1:
+			target = pick(r, []string{"decimal", "missing", "lower-roman"})
+		default:
+			target = names[(i+1)%n] // closes a cycle on the last one
+		}
+		ru := &Rule{Prelude: "@counter-style " + names[i], Decls: []Decl{{Name: "system", Value: "extends " + target}}}
+		if r.P(1, 3) {
+			ru.Decls = append(ru.Decls, Decl{Name: pick(r, []string{"suffix", "prefix", "fallback", "range", "pad"}), Value: pick(r, []string{"') '", "'('", pick(r, names), "1 3", "2 '0'"})})
+		}
+		d.Author = append(d.Author, ru)
+	}
+	entry := "kx"
+	d.Author = append(d.Author, &Rule{Prelude: "@counter-style kx", Decls: []Decl{{Name: "system", Value: "extends " + names[r.Intn(n)]}}})
+	if r.P(1, 3) {
+		entry = names[r.Intn(n)]
+	}
+	switch r.Intn(3) {
+	case 0:
+		d.Author = append(d.Author, &Rule{Prelude: "li", Decls: []Decl{{Name: "list-style-type", Value: entry}}})
+	case 1:
+		d.Author = append(d.Author, &Rule{Prelude: "li::before", Decls: []Decl{{Name: "counter-increment", Value: "c"}, {Name: "content", Value: "counter(c, " + entry + ") ' '"}}})
+	default:
+		d.Author = append(d.Author, &Rule{Prelude: "li::after", Decls: []Decl{{Name: "content", Value: "counters(list-item, '.', " + entry + ")"}}})
+	}
+	d.Body.Kids = append(d.Body.Kids, &Node{Tag: "ol", Kids: []*Node{{Tag: "li", Kids: []*Node{{Text: "a"}}}, {Tag: "li", Kids: []*Node{{Text: "b"}}}}})
 }
 
 func (g *gen) smallPage() *Rule {
